@@ -533,6 +533,8 @@ class ExprMixin:
             return a.real is b.real
         if isinstance(a, bool) and isinstance(b, bool):
             return a == b
+        if is_bool(a) and is_bool(b):
+            return simp(zb(a) == zb(b))      # True/False are singletons
         if a is NOTIMPL or b is NOTIMPL:
             return a is b
         if type(a) is not type(b) and not (is_z3(a) or is_z3(b)):
